@@ -127,6 +127,42 @@ def one_case(rec, rng, case_id):
     rec.check(np.array_equal(x, x0), "input-mutated",
               "abscissa modified by %s" % via, case)
     judge(rec, mk, full, x, via, out, case)
+    if rng.random() < .35:
+        # second evaluation with the same array *object* (and the same
+        # parameter object) after in-place edits of the abscissa, of the
+        # array returned before, or of a parameter: the result has to be
+        # the formula of the values present at the time of the call
+        how = ["shift-x", "scale-x", "edit-returned", "edit-parameter"][
+            int(rng.integers(4))]
+        full2 = dict(full)
+        if how == "shift-x":
+            x -= float(rng.uniform(-1, 1) * 10 ** rng.uniform(-8, -6))
+        elif how == "scale-x":
+            x *= float(rng.uniform(.3, 3))
+        elif how == "edit-returned" and isinstance(out, np.ndarray) \
+                and out.flags.writeable:
+            out += float(rng.uniform(-1, 1) * 1e-9)
+            out[::2] = -1.0
+        else:
+            how = "edit-parameter"
+            key = "baseline" if rng.random() < .5 else \
+                ("E" if "E" in full else "E_L")
+            full2[key] = float(full[key] * rng.uniform(.5, .9)
+                               + (1e-10 if key == "baseline" else 0))
+            if via_params:
+                p[key].value = full2[key]
+        x1 = x.copy()
+        if via_params:
+            out2 = md.model(p, x)
+        else:
+            out2 = md.module.model_func(x, **full2)
+        case2 = dict(case, params=full2, x=x1, second_call=how)
+        rec.event("second evaluations on the same array object: " + how)
+        rec.evaluated(dg=(mk, full2, x1, how))
+        rec.check(np.array_equal(x, x1), "input-mutated",
+                  "abscissa modified by %s (second call)" % via, case2)
+        judge(rec, mk, full2, x1, via + " (second call, %s)" % how, out2,
+              case2)
     rec.sample({"model": mk, "params": full, "n": int(x.size), "via": via,
                 "max_depth": float(full["contact_point"] - x.min())})
 
